@@ -365,6 +365,11 @@ H("udp_gso_probe_native", ["C19"], "replay-only", "unix::gso_probe_native",
 H("udp_effective_segment_size", ["C19"], "quick", "effective_segment_size",
   [("len", "u16"), ("has_seg", "bool"), ("seg", "usize")], 4, ["plain send", "segmented"],
   ["Transmit::effective_segment_size"], "every payload length: u16, every segment size: usize", crate="quinn_udp")
+# (paths::rtt_update - RttEstimator::update under Kani - does not finish within the quick cap: Duration * / by constants
+#  goes through u128 nanoseconds; its no-underflow obligation is decided by the E2 query e2_rtt_update_no_underflow)
+H("path_rtt_update_native", ["C03"], "replay-only", "connection::paths::rtt_update",
+  [("latest_ms", "u32"), ("has_smoothed", "bool"), ("smoothed_ms", "u32"), ("var_ms", "u32"), ("min_ms", "u32"), ("ack_delay_ms", "u32"), ("rtt_ms", "u32")], 6, [],
+  ["RttEstimator::update"], "native replay body of E2 query e2_rtt_update_no_underflow")
 H("path_from_previous", ["C07", "C15", "C12"], "quick", "connection::paths::from_previous",
   [("prev_validated", "bool"), ("prev_sent", "u64"), ("prev_recvd", "u64"), ("prev_in_flight", "u64"), ("prev_gen", "u64"), ("new_gen", "u64"), ("new_port", "u16"), ("bytes_to_send", "u64")], 6,
   ["reached"], ["PathData::from_previous", "PathData::anti_amplification_blocked", "Pacer::new"],
